@@ -80,8 +80,8 @@ def rule_c15_plumb(r):
             "PyInput(q_vectors, self.dtype)", pin[0][1].lineno if pin else 0, "q vectors converted to the model precision")
     ll = pyval.fold_function(kd.func("DllModel._load_dll"))
     ft = ll.env.get("float_type")
-    want = where(F("cmp_Eq")(sym("self.dtype"), sym("generate.F32")), sym("ct.c_float"),
-                 where(F("cmp_Eq")(sym("self.dtype"), sym("generate.F64")), sym("ct.c_double"), sym("ct.c_longdouble")))
+    want = pyval.mk_where(pyval.mk_cmp("Eq", sym("self.dtype"), sym("generate.F32")), sym("ct.c_float"),
+                          pyval.mk_where(pyval.mk_cmp("Eq", sym("self.dtype"), sym("generate.F64")), sym("ct.c_double"), sym("ct.c_longdouble")))
     r.check(ft is not None and pyval.same(ft, want), kd.relpath, "DllModel._load_dll", "float_type by self.dtype: F32->c_float, F64->c_double, else c_longdouble",
             kd.func("DllModel._load_dll").lineno, "found %s" % ft)
 
@@ -121,7 +121,8 @@ def rule_c08_dim(r):
     res = pyval.fold_function(gm)
     act = res.env.get("active")
     s = str(act)
-    ok = act is not None and "pd_1d" in s and "pd_2d" in s and "cmp_Eq(dim, '1d')" in s and "cmp_Eq(dim, '2d')" in s
+    c1, c2 = str(pyval.mk_cmp("Eq", sym("dim"), sym("'1d'"))), str(pyval.mk_cmp("Eq", sym("dim"), sym("'2d'")))
+    ok = act is not None and "pd_1d" in s and "pd_2d" in s and c1 in s and c2 in s
     r.check(ok, "sasmodels/direct_model.py", "get_mesh", "active set: mono -> none, '1d' -> pd_1d, '2d' -> pd_2d, otherwise all", gm.lineno,
             "found %s" % pyval._short(act))
     if n < 4:
